@@ -288,7 +288,39 @@ HOSTILE = [b'BEGIN:VCALENDAR\r\nBEGIN:VEVENT\r\nDTSTART:08000102T030405Z\r\nDTEN
            b'BEGIN:VCALENDAR\r\nBEGIN:X-UNKNOWN\r\nFOO;BAR=1:baz\r\nBEGIN:X-INNER\r\nEND:X-INNER\r\nEND:X-UNKNOWN\r\nEND:VCALENDAR\r\n']
 
 
+def check_parse_is_fresh(ctx, data, label):
+    """parsing returns a tree of its own: editing the parsed tree must not change what a later parse of the
+    same text returns (the property compares trees of separate parses)"""
+    import icalendar
+    try:
+        c1 = icalendar.Component.from_ical(data, multiple=True)
+    except ValueError:
+        return
+    ctx.evaluated(('fresh', label))
+    snap = [canon_tree(tree_of(c)) for c in c1]
+    for c in c1:
+        for w in c.walk():
+            for k, v in list(w.items()):
+                for x in (v if isinstance(v, list) else [v]):
+                    if hasattr(x, 'params'):
+                        try:
+                            x.params['X-EDITED'] = 'yes'
+                        except TypeError:
+                            pass
+            w.add('x-edited', 'yes')
+    try:
+        c2 = icalendar.Component.from_ical(data, multiple=True)
+    except ValueError as e:
+        ctx.violation('parse-not-fresh', {'data': data.decode('utf-8', 'replace')}, f'second parse of the same text failed after the first tree was edited: {e}')
+        return
+    if [canon_tree(tree_of(c)) for c in c2] != snap:
+        ctx.violation('parse-not-fresh', {'data': data.decode('utf-8', 'replace')},
+                      'a second parse of the same text differs from the first after the first tree was edited (state shared between parses)')
+
+
 def oracle(ctx):
+    for name, data in calgen.fixtures()[:: 3 if ctx.tier == 'quick' and not ctx.escalate else 1]:
+        check_parse_is_fresh(ctx, data, name)
     for data in HOSTILE:
         check_stable(ctx, data, 'hostile')
     for name, data in calgen.fixtures():
